@@ -1381,9 +1381,13 @@ impl DtlsInner {
             if let Some(keys) = &ctx.session_keys {
                 let crypto = create_session_crypto(keys.clone())?;
                 let state = DtlsState::Connected(Arc::new(crypto), ctx.srtp_profile);
-                *self.state.lock() = state.clone();
+                // The write counters are handed over BEFORE Connected is published:
+                // send() runs on other tasks and only looks at the state, so a sender
+                // that saw Connected first would seal under epoch 0 or draw a
+                // sequence number the store below then resets (nonce reuse).
                 self.write_epoch.store(ctx.epoch, Ordering::SeqCst);
                 self.write_seq.store(ctx.sequence_number, Ordering::SeqCst);
+                *self.state.lock() = state.clone();
                 let _ = self.state_tx.send(state);
                 debug!("DTLS handshake complete (server role) (remote={})", self.conn.remote_addr.read());
                 // Clear ephemeral secret as handshake is complete
@@ -1414,9 +1418,10 @@ impl DtlsInner {
                         let crypto = create_session_crypto(keys.clone())?;
 
                         let state = DtlsState::Connected(Arc::new(crypto), ctx.srtp_profile);
-                        *self.state.lock() = state.clone();
+                        // As in the server role: counters first, then the state.
                         self.write_epoch.store(ctx.epoch, Ordering::SeqCst);
                         self.write_seq.store(ctx.sequence_number, Ordering::SeqCst);
+                        *self.state.lock() = state.clone();
                         let _ = self.state_tx.send(state);
                         debug!("DTLS handshake complete (client role) (remote={})", self.conn.remote_addr.read());
                         ctx.local_secret = None;
